@@ -29,6 +29,9 @@ type Job struct {
 	// Abstract: the job runs on abstract tables; a counterexample found there is reported as a
 	// violation only if a concrete (corpus) job of the same check fails the same assertion.
 	Abstract bool
+	// ReplayParams are added to the parameters of replay files (e.g. REPEAT for harnesses whose
+	// native behaviour depends on Go's random map iteration order).
+	ReplayParams map[string]int
 	// RequiredCovers: if non-nil only these cover points must be reachable (others may be
 	// unreachable at this bound without making the harness vacuous).
 	RequiredCovers []string
@@ -316,7 +319,14 @@ func sanitize(s string) string {
 }
 
 func (c *Ctx) writeReplay(j Job, e *engine.Engine, o engine.Outcome, sub string) (string, ReplayFile) {
-	rf := ReplayFile{Check: c.ID, Job: j.Name, Harness: j.Run.Harness, Target: j.Target.PkgPath, Values: e.ModelValues(o.Res.Model), Params: j.Run.Params, UF: e.UFTables(o.Res.Model), Note: fmt.Sprintf("%s %s: %s (%s)", j.Name, o.Ob.Kind, o.Ob.Rec.Msg, o.Ob.Rec.Pos)}
+	params := map[string]int{}
+	for k, v := range j.Run.Params {
+		params[k] = v
+	}
+	for k, v := range j.ReplayParams {
+		params[k] = v
+	}
+	rf := ReplayFile{Check: c.ID, Job: j.Name, Harness: j.Run.Harness, Target: j.Target.PkgPath, Values: e.ModelValues(o.Res.Model), Params: params, UF: e.UFTables(o.Res.Model), Note: fmt.Sprintf("%s %s: %s (%s)", j.Name, o.Ob.Kind, o.Ob.Rec.Msg, o.Ob.Rec.Pos)}
 	p := filepath.Join(VerifRoot, "replays", c.ID, sub, sanitize(j.Name)+"-"+o.Ob.Name+".json")
 	WriteReplay(p, rf)
 	return p, rf
